@@ -682,8 +682,8 @@ impl Check for ThrCheck {
     }
     fn runs(&self, tier: Tier) -> u64 {
         match tier {
-            Tier::Quick => 20_000,
-            Tier::Thorough => 600_000,
+            Tier::Quick => 60_000,
+            Tier::Thorough => 1_500_000,
         }
     }
     fn generate(&self, rng: &mut Rng, tier: Tier) -> ThrScn {
